@@ -179,6 +179,7 @@ type PathSummary struct {
 	EndIn   ssa.Instruction
 	Blocks  []*ssa.BasicBlock
 	Results []string // terms of returned values (End == return)
+	BackPhi map[string]string // End == continue: value fed to each header phi (keyed by source name)
 }
 
 // SymConfig configures the summarizer.
@@ -268,6 +269,18 @@ func Summarize(cfg *SymConfig) []PathSummary {
 				c.End = "continue"
 				c.EndIn = last
 				c.Ints = ns.ints
+				c.BackPhi = map[string]string{}
+				for _, in := range s.Instrs {
+					ph, ok := in.(*ssa.Phi)
+					if !ok {
+						break
+					}
+					for pi, pb := range s.Preds {
+						if pb == b {
+							c.BackPhi[PhiName(ph)] = ns.term(ph.Edges[pi])
+						}
+					}
+				}
 				out = append(out, c)
 				continue
 			}
@@ -558,7 +571,7 @@ func (s *symPath) term(v ssa.Value) string {
 		if e := s.phiEdge(x); e != nil {
 			return s.term(e)
 		}
-		return "φ" + x.Name() + "@" + fmt.Sprint(x.Block().Index)
+		return "φ(" + PhiName(x) + ")"
 	case *ssa.Convert:
 		return s.term(x.X)
 	case *ssa.ChangeType:
@@ -745,4 +758,39 @@ func (p *PathSummary) EnumCase(term string) (val string, isDefault bool, ok bool
 		return "", true, true
 	}
 	return "", false, false
+}
+
+// PhiName names a phi by its source variable when known.
+func PhiName(p *ssa.Phi) string {
+	if p.Comment != "" {
+		return p.Comment
+	}
+	return p.Name()
+}
+
+// OrderingOf returns the set of orderings of (a, b) the path's conditions
+// allow, considering conditions that compare exactly these two terms.
+func (p *PathSummary) OrderingOf(a, b string) int {
+	set := OrdAny
+	for _, c := range p.Conds {
+		var s int
+		switch {
+		case c.X == a && c.Y == b:
+			s = ordSet(c.Op, c.Neg)
+		case c.X == b && c.Y == a:
+			s = ordSet(c.Op, c.Neg)
+			sw := s & ordEQ
+			if s&ordLT != 0 {
+				sw |= ordGT
+			}
+			if s&ordGT != 0 {
+				sw |= ordLT
+			}
+			s = sw
+		default:
+			continue
+		}
+		set &= s
+	}
+	return set
 }
